@@ -161,7 +161,52 @@ def resolve_class_case(case):
     return dict(reproduced=bool(violated), violated=violated[:8], probes=probes)
 
 
+def nested_compound_case(case):
+    """compound traits, flat and nested (a compound as an alternative of another one, a compound as a Tuple member): the compiled
+    path accepts iff the handler's Python-level validate accepts, and both give an equal value of the same type"""
+    import traits.api as T
+    from traits.api import HasTraits, TraitError
+    violated, probes = [], 0
+    decls = {
+        "Either(Either(Str, List(Int)), Int, Float)": lambda: T.Either(T.Either(T.Str, T.List(T.Int)), T.Int, T.Float),
+        "Either(Str, List(Int), Int, Float)": lambda: T.Either(T.Str, T.List(T.Int), T.Int, T.Float),
+        "Either(Int, Either(List(Int), Dict(Str, Int)), Str)": lambda: T.Either(T.Int, T.Either(T.List(T.Int), T.Dict(T.Str, T.Int)), T.Str),
+        "Tuple(Either(Either(Str, List(Int)), Int), Str)": lambda: T.Tuple(T.Either(T.Either(T.Str, T.List(T.Int)), T.Int), T.Str),
+        "Either(Range(0.0, 1.0), Either(Set(Int), None), Bool)": lambda: T.Either(T.Range(0.0, 1.0), T.Either(T.Set(T.Int), None), T.Bool),
+        "Trait(None, Either(List(Str), Int), Float)": lambda: T.Trait(None, T.Either(T.List(T.Str), T.Int), T.Float),
+    }
+    values = [5, 2.5, True, "s", [1, 2], ["a"], {"k": 1}, {1, 2}, None, (7, "b"), ("x", "b"), ([1], "b"), (2.5, "b"), 0.5, object(), b"b"]
+    for label, mk in decls.items():
+        class A(HasTraits):
+            x = mk()
+        handler = A.class_traits()["x"].handler
+        for v in values:
+            probes += 1
+            a = A()
+            try:
+                a.x = v
+                c_out = ("ok", a.x)
+            except TraitError:
+                c_out = ("TraitError", None)
+            except Exception as e:
+                c_out = ("raises %s" % type(e).__name__, None)
+            try:
+                p_out = ("ok", handler.validate(A(), "x", v))
+            except TraitError:
+                p_out = ("TraitError", None)
+            except Exception as e:
+                p_out = ("raises %s" % type(e).__name__, None)
+            if (c_out[0] == "ok") != (p_out[0] == "ok"):
+                violated.append("%s <- %r: compiled path %s, Python validate %s" % (label, v, c_out[0], p_out[0]))
+            elif c_out[0] == "ok" and (type(c_out[1]).__name__.replace("Trait", "").replace("Object", "").lower() !=
+                                       type(p_out[1]).__name__.replace("Trait", "").replace("Object", "").lower() or list(map(repr, [c_out[1]])) != list(map(repr, [p_out[1]]))):
+                violated.append("%s <- %r: compiled path stores %r, Python validate gives %r" % (label, v, c_out[1], p_out[1]))
+    return dict(reproduced=bool(violated), violated=violated[:8], probes=probes)
+
+
 def run(case):
+    if case.get("family") == "nested_compound":
+        return nested_compound_case(case)
     if case.get("family") == "resolve_class":
         return resolve_class_case(case)
     from traits.api import HasTraits, TraitError
